@@ -74,6 +74,23 @@ def run(rep: Report, tier: str) -> None:
     # ---- R15.3 --------------------------------------------------------------------------------------------
     from sa.checks import c06
     c06.over_clause_rules(P, rep, "R15.3")
+    # ---- R15.4: additive aggregates accumulate exactly (no cast to a binary floating type inside SUM/AVG) ----
+    rep.rule("R15.4", "SUM/AVG templates do not cast their argument to DOUBLE/FLOAT/REAL (float addition is not associative: per-thread partial sums make the result depend on the schedule)")
+    import re as _re
+    from sa import registryx as _rx
+    n154 = 0
+    for e_ in _rx.extract(P):
+        for tpl in e_.templates.values():
+            m_ = _re.search(r"\b(SUM|AVG)\s*\((.*)\)", tpl, _re.I)
+            if not m_:
+                continue
+            n154 += 1
+            rep.instance("R15.4", f"template/{e_.token}", nontrivial=True, sample=tpl)
+            if _re.search(r"\bAS\s+(DOUBLE|FLOAT|REAL|FLOAT4|FLOAT8)\b|::\s*(DOUBLE|FLOAT|REAL)\b", m_.group(2), _re.I):
+                rep.add(Finding("R15.4", f"R15.4/template/{e_.token}", "src/vtlengine/duckdb_transpiler/Transpiler/operators.py", e_.line, f"registry[{e_.token}]",
+                                f"the SQL template of {e_.token} is `{tpl}`: the argument is cast to a binary floating type before it is accumulated, so the partial sums of the worker "
+                                f"threads are rounded differently depending on how the rows are distributed; the same input gives different results under another thread count or memory limit"))
+    rep.floor("R15.4 additive aggregate templates", n154, 2)
     rep.analysed = dict(stats, premise=prem)
     rep.assumptions = ["DuckDB evaluates window functions / aggregates with ORDER BY deterministically when the order is total",
                        "preserve_insertion_order=false: no operator output order may be relied upon (premise read from the source)"]
